@@ -168,7 +168,8 @@ func Main(prop string) {
 			if b, err := cmd.CombinedOutput(); err != nil {
 				s := string(b)
 				if len(s) > 3000 {
-					s = s[len(s)-3000:]
+					// the head names the fatal error, the tail the goroutines involved
+					s = s[:900] + "\n...\n" + s[len(s)-2000:]
 				}
 				fails[i] = err.Error() + ": " + s
 			}
